@@ -66,6 +66,16 @@ def fold_tag(repo: Repo, f: Func, e: t.Optional[ast.expr], default: Tag, env: t.
         return default
     if isinstance(e, ast.Name) and env and e.id in env:
         e = env[e.id]
+    if isinstance(e, (ast.Name, ast.Attribute)):
+        # a named tag constant (module or class level): its defining expression is the tag
+        r = repo.resolve(e, f.mod)
+        if r is None and isinstance(e, ast.Attribute) and isinstance(e.value, ast.Name) and e.value.id in ("self", "cls") and f.cls is not None:
+            for c in f.cls.mro():
+                if e.attr in c.class_consts:
+                    r = ("const", c.mod, c.class_consts[e.attr])
+                    break
+        if isinstance(r, tuple) and r[0] == "const" and not isinstance(r[2], (ast.Name,)):
+            return fold_tag(repo, f, r[2], default, None)
     if isinstance(e, ast.Call) and unparse(e.func) == "ASN1Tag":
         kws = {k.arg: k.value for k in e.keywords if k.arg}
         for i, a in enumerate(e.args):
@@ -160,6 +170,91 @@ class WriterShape:
             raise AnalysisError(f"{self.f.qual}:{s.lineno}: statement outside the writer idiom: {unparse(s)[:80]}")
 
 
+def _is_read_call(c: ast.AST) -> bool:
+    if not (isinstance(c, ast.Call) and isinstance(c.func, ast.Attribute)):
+        return False
+    a = c.func.attr
+    if a.startswith("read_") or a in ("get_remaining_data",):
+        return True
+    return a == "unpack" and bool(c.args) and isinstance(c.args[0], ast.Name)
+
+
+def three_address(fn: t.Union[ast.FunctionDef, ast.AsyncFunctionDef]) -> t.Union[ast.FunctionDef, ast.AsyncFunctionDef]:
+    """Copy of fn in which every value-reading call (`r.read_x(..)`, `X.unpack(r)`) that is nested inside a larger
+    expression is bound to a fresh local first (`xs.append(X.unpack(r))` -> `_r1 = X.unpack(r); xs.append(_r1)`),
+    in evaluation order, so that the statement patterns of the reader idiom see one read per assignment."""
+    import copy
+
+    counter = [0]
+
+    def hoist(stmt: ast.stmt) -> t.List[ast.stmt]:
+        pre: t.List[ast.stmt] = []
+
+        class H(ast.NodeTransformer):
+            def visit_IfExp(self, node: ast.IfExp) -> ast.AST:
+                node.test = self.visit(node.test)
+                return node  # the branches are evaluated conditionally: leave them alone
+
+            def visit_BoolOp(self, node: ast.BoolOp) -> ast.AST:
+                node.values[0] = self.visit(node.values[0])
+                return node
+
+            def visit_Lambda(self, node: ast.Lambda) -> ast.AST:
+                return node
+
+            def _comp(self, node: ast.AST) -> ast.AST:
+                return node
+
+            visit_ListComp = visit_SetComp = visit_DictComp = visit_GeneratorExp = _comp
+
+            def visit_Call(self, node: ast.Call) -> ast.AST:
+                # a chain r.read_sequence().read_x(): only the outermost call is a value read
+                if isinstance(node.func, ast.Attribute) and _is_read_call(node.func.value) and _is_read_call(node):
+                    node.args = [self.visit(a) for a in node.args]
+                    for k in node.keywords:
+                        k.value = self.visit(k.value)
+                else:
+                    self.generic_visit(node)
+                if _is_read_call(node) and not (node.func.attr in ("read_sequence", "read_set", "read_set_of", "read_sequence_of")):  # type: ignore[attr-defined]
+                    counter[0] += 1
+                    name = f"_r{counter[0]}"
+                    pre.append(ast.copy_location(ast.Assign(targets=[ast.Name(id=name, ctx=ast.Store())], value=node), node))
+                    return ast.copy_location(ast.Name(id=name, ctx=ast.Load()), node)
+                return node
+
+        if isinstance(stmt, ast.Assign) and len(stmt.targets) == 1 and isinstance(stmt.targets[0], ast.Name) and isinstance(stmt.value, ast.Call):
+            # the top call itself stays where it is; only reads nested in its arguments move
+            top = stmt.value
+            h = H()
+            if isinstance(top.func, ast.Attribute) and not _is_read_call(top.func.value):
+                top.func.value = h.visit(top.func.value)
+            top.args = [h.visit(a) for a in top.args]
+            for k in top.keywords:
+                k.value = h.visit(k.value)
+            if not _is_read_call(top) and False:
+                pass
+            return pre + [stmt]
+        if isinstance(stmt, (ast.Assign, ast.AnnAssign, ast.AugAssign, ast.Expr, ast.Return)) and getattr(stmt, "value", None) is not None:
+            stmt.value = H().visit(stmt.value)  # type: ignore[union-attr]
+            return pre + [stmt]
+        return [stmt]
+
+    def block(stmts: t.List[ast.stmt]) -> t.List[ast.stmt]:
+        out: t.List[ast.stmt] = []
+        for s in stmts:
+            for fld in ("body", "orelse", "finalbody"):
+                blk = getattr(s, fld, None)
+                if isinstance(blk, list) and blk and isinstance(blk[0], ast.stmt):
+                    setattr(s, fld, block(blk))
+            out.extend(hoist(s))
+        return out
+
+    new = copy.deepcopy(fn)
+    new.body = block(new.body)
+    ast.fix_missing_locations(new)
+    return new
+
+
 class ReaderShape:
     """Readers: variables holding ASN1Reader objects are tracked; each read_* call appends an item to the
     shape list of the reader it is called on.  Items carry the local variable the value is assigned to."""
@@ -167,6 +262,7 @@ class ReaderShape:
     def __init__(self, repo: Repo, f: Func) -> None:
         self.repo = repo
         self.f = f
+        self.node = three_address(f.node)
         self.readers: t.Dict[str, t.List[Item]] = {}
         self.tagvars: t.Dict[str, ast.expr] = {}
         self.assigned_after_read: t.List[t.Tuple[str, ast.stmt]] = []
@@ -177,7 +273,7 @@ class ReaderShape:
         root: t.List[Item] = []
         self.readers[param] = root
         self.root_param = param
-        self.block(self.f.node.body, None)
+        self.block(self.node.body, None)
         return root
 
     def reader_call(self, e: ast.expr) -> t.Optional[t.Tuple[t.List[Item], ast.Call, str]]:
@@ -267,6 +363,6 @@ class ReaderShape:
                         del v[mark.get(k, 0) :]
                         v.append(Item("repeat", field=unparse(s.test), children=new, node=s))
                 continue
-            if isinstance(s, (ast.Return, ast.Raise, ast.Expr, ast.Pass)):
+            if isinstance(s, (ast.Return, ast.Raise, ast.Expr, ast.Pass, ast.Break, ast.Continue)):
                 continue
             raise AnalysisError(f"{self.f.qual}:{s.lineno}: statement outside the reader idiom: {unparse(s)[:80]}")
